@@ -52,6 +52,7 @@ var c13Groups = []c13Group{
 	{"abs-inside", false, false},      // absolute path, cwd = another directory of the same module
 	{"abs-outside", false, false},     // absolute path, cwd = a directory outside the module
 	{"abs-modroot", false, false},     // absolute path, cwd = module root (an ancestor of the input file)
+	{"abs-deleted-cwd", false, false}, // absolute path, started from a directory that no longer exists
 	{"abs-via-symlink", false, false}, // absolute path that runs through a symbolic link to the module root, cwd outside the module
 	{"write", true, false},            // cwd = package dir of a private copy, "setup.go", really writing
 	// really writing with -log; the first and the last process of this group are started at least 1.1 s
@@ -74,6 +75,8 @@ func (g c13Group) spec(root, outside string, sc *c13Scen) (args []string, dir, s
 		spelling, dir = abs, outside
 	case "abs-modroot":
 		spelling, dir = abs, root
+	case "abs-deleted-cwd":
+		spelling, dir = abs, outside // (the runner replaces the working directory, see runOne)
 	case "abs-via-symlink":
 		spelling, dir = filepath.Join(root+"-lnk", sc.SetupRel), outside
 	default:
@@ -220,6 +223,29 @@ func c13HandScenarios() []*c13Scen {
 	mk("hx7", "dup-import-name", "\t\"vb/ext\"\n\t\"vb/PKG/sub/ext\"\n", "err")
 	mk("hx8", "dup-import-name", "\t\"vb/ext\"\n\text \"vb/PKG/sub/other\"\n", "err")
 	mk("hx9", "dup-import-name-same-sig", "\t\"vb/ext\"\n\t\"vb/PKG/sub/ext\"\n", "same")
+	// a converter interface that EMBEDS interfaces declared in other (convergen-tagged) files of the package,
+	// every method with unmatched fields: the order of the diagnostics must not depend on the order in which
+	// the loader happens to parse the files
+	{
+		id := "hx10"
+		part := func(name string, k int) string {
+			var sb strings.Builder
+			sb.WriteString("//go:build convergen\n\npackage sc\n\ntype " + name + " interface {\n")
+			for i := 0; i < 4; i++ {
+				fmt.Fprintf(&sb, "\t%sM%d(*WS%d) *WD%d\n", name, i, k, k)
+			}
+			sb.WriteString("}\n")
+			return sb.String()
+		}
+		types := "package sc\n\n"
+		for k := 0; k < 4; k++ {
+			types += fmt.Sprintf("type WS%d struct{ A int }\n\ntype WD%d struct {\n\tA int\n\tMissing%da string\n\tMissing%db int\n}\n\n", k, k, k, k)
+		}
+		setup := "//go:build convergen\n\npackage sc\n\ntype Convergen interface {\n\tPartC\n\tPartA\n\tOwn(*WS0) *WD0\n\tPartD\n\tPartB\n}\n"
+		r = append(r, &c13Scen{ID: id, Kind: "embeds-interfaces-of-other-files", PkgRel: id, SetupRel: id + "/setup.go", NMethods: 17, Files: map[string]string{
+			id + "/types.go": types, id + "/setup.go": setup, id + "/a_part.go": part("PartA", 0), id + "/b_part.go": part("PartB", 1),
+			id + "/m_part.go": part("PartC", 2), id + "/z_part.go": part("PartD", 3)}})
+	}
 	return r
 }
 
@@ -365,8 +391,8 @@ func c13FirstDiffLine(a, b string) string {
 func RunC13(e *core.Env) int {
 	rep := core.NewReport(e, "exploration",
 		"scenarios = seeded broad setups (accepted and rejected), a many-methods/many-converters/many-no-match profile, setups with two converter interfaces, setups with an injected bad notation, "+
-			"and fixed setups whose import table holds two paths with the same last element (blank/named/aliased/duplicated); each scenario is run in N fresh processes (quick 12, thorough 40) over nine groups "+
-			"(package dir + relative path, module root + relative path, sibling dir + ../ path, absolute path from inside the module, absolute path from outside the module, absolute path from the module root, absolute path through a symbolic link to the module root, really writing runs on private copies, "+
+			"and fixed setups whose import table holds two paths with the same last element (blank/named/aliased/duplicated); each scenario is run in N fresh processes (quick 12, thorough 40) over ten groups "+
+			"(package dir + relative path, module root + relative path, sibling dir + ../ path, absolute path from inside the module, absolute path from outside the module, absolute path from the module root, absolute path from a directory that has been removed, absolute path through a symbolic link to the module root, really writing runs on private copies, "+
 			"really writing runs with -log whose first and last process are started in different wall-clock seconds) "+
 			"with HOME, TMPDIR, LANG, TZ, GOMAXPROCS and unrelated variables varied, a third of the scenarios with all processes started concurrently. "+
 			"A case is (scenario, group); it is counted distinct/non-trivial by (hash of the scenario sources, group) when at least two tuples were actually compared for it (within the group or against the reference group) and the run produced either generated functions or diagnostics")
@@ -374,9 +400,9 @@ func RunC13(e *core.Env) int {
 		"for -dry -print runs the output bytes are stdout; for writing runs the bytes at the output path; the two kinds are compared among themselves only (different flags)",
 		"only the module root / input path spelling is normalised in stderr before the cross-group comparison")
 	thorough := e.Tier == "thorough"
-	nScen, perGroup := 400, []int{3, 2, 2, 2, 1, 1, 1, 2, 2}
+	nScen, perGroup := 400, []int{3, 2, 2, 2, 1, 1, 1, 1, 2, 2}
 	if thorough {
-		nScen, perGroup = 1500, []int{10, 6, 6, 6, 4, 3, 3, 8, 4}
+		nScen, perGroup = 1500, []int{10, 6, 6, 6, 4, 3, 2, 3, 8, 4}
 	}
 	pool := c13NewEnvPool(e)
 	if pool.otherFS != "" {
@@ -445,7 +471,13 @@ func RunC13(e *core.Env) int {
 				defer os.RemoveAll(o.Root)
 			}
 			args, dir, _ := g.spec(o.Root, outside, sc)
-			res := e.Run(core.RunSpec{Args: args, Dir: dir, Env: o.Env, WallSec: 180})
+			spec := core.RunSpec{Args: args, Dir: dir, Env: o.Env, WallSec: 180}
+			if g.Name == "abs-deleted-cwd" {
+				// the shell enters a fresh directory, removes it and only then starts the tool
+				gone := filepath.Join(outside, fmt.Sprintf("gone-%04d-%d", si, o.Idx))
+				spec.Wrap = []string{"/bin/sh", "-c", `d="$1"; shift; mkdir -p "$d" && cd "$d" && rmdir "$d" && exec "$@"`, "sh", gone}
+			}
+			res := e.Run(spec)
 			o.Exit, o.Stdout, o.Stderr, o.Timeout, o.StartErr = res.Exit, res.Stdout, res.Stderr, res.TimedOut, res.StartErr
 			if g.Write {
 				if b, err := os.ReadFile(filepath.Join(o.Root, strings.TrimSuffix(sc.SetupRel, ".go")+".gen.go")); err == nil {
@@ -647,7 +679,7 @@ func RunC13(e *core.Env) int {
 		var absRef *c13Obs
 		var absRefG c13Group
 		for gi, g := range c13Groups {
-			if !(g.Name == "abs-inside" || g.Name == "abs-outside" || g.Name == "abs-modroot") || !groupOK[gi] || len(byGroup[gi]) == 0 {
+			if !(g.Name == "abs-inside" || g.Name == "abs-outside" || g.Name == "abs-modroot" || g.Name == "abs-deleted-cwd") || !groupOK[gi] || len(byGroup[gi]) == 0 {
 				continue
 			}
 			b := byGroup[gi][0]
